@@ -53,7 +53,7 @@ def handle (line : String) : String :=
           match rst.toInt?, rw.toNat? with
           | some rstatus, some rwarn =>
             let real : Real := ⟨rstatus, if rout = "none" then none else unhex rout, rwarn, rck.toNat?⟩
-            let q : Quirks := ⟨bit qs 0, bit qs 1, bit qs 2, bit qs 3⟩
+            let q : Quirks := ⟨bit qs 0, bit qs 1, bit qs 2, bit qs 3, bit qs 4⟩
             let o : Opts := { startAuto := sa = "1", stopAuto := so = "1", startAdr := start, stopAdr := stop, fill := b fill,
                               sizeDiv := dv, mask := mk, eq := eq, header := hdr, entry := en.toNat?, checksum := cks = 1,
                               filter := filter, segment := b seg }
@@ -73,7 +73,7 @@ def handle (line : String) : String :=
             let sel := specSelect filter (b seg) files
             let h := hdr.natAbs
             let mixed := sel.any (fun r => r.gran != specMaxGran sel)
-            let trap := fcs.any (fun fc => formatTrap fc.1.1 fc.2)
+            let trap := !q.emptyCreatorOK && fcs.any (fun fc => formatTrap fc.1.1 fc.2)
             let wsO := if sa = "1" then specMinStart sel else some start
             let weO := if so = "1" then specMaxLast sel else some stop
             let wf := sel.all (fun r => decide r.WF)
